@@ -36,6 +36,9 @@ def config_names():
         for k in ("instance_methods", "class_methods", "constants"):
             for m in d.get(k) or []:
                 names.add(m.get("name", ""))
+        # every identifier the configuration mentions anywhere (type strings such as "Hoge::Fuga", extends, frames):
+        # a program name the configuration refers to is not a free user identifier
+        names |= set(re.findall(r"[A-Za-z_][A-Za-z0-9_]*", json.dumps(d)))
     return names
 
 
